@@ -88,11 +88,24 @@ Definition numeric_like (o : obj) : bool :=
   match o with OClass k => numeric_cls k | _ => numeric_cls (class_of o) end.
 Definition assert_promotion (c : cond) (o : obj) : bool := has_assert c && numeric_like o.
 
-(* patterns of TypeIs: the two patma pattern values are built only by the sequence / mapping
-   leaves; list[...] / dict[...] patterns are outside the fragment (two list types with different
-   arguments share the empty list but is_overlapping finds them disjoint) *)
-Definition pat_ok (p : bval) : bool :=
-  match p with VGen (GList _) | VGen (GDict _ _) => false | _ => true end.
+(* ---- clause generic_pattern_negative ------------------------------------
+   TypeIs[list[int]] in the negative branch drops every list type that is assignable to list[int],
+   including list[Any] and the bare list (assignable only because the argument is unknown): a list
+   that is not a list[int] takes that branch and is lost.  (The positive branch is fine since the
+   C02 repair of _deliteral: list[int] and list[str] overlap in the empty list.) *)
+Definition is_generic_pat (p : bval) : bool :=
+  match p with VGen (GList _) | VGen (GDict _ _) => true | _ => false end.
+Definition is_collection (o : obj) : bool :=
+  match o with OList _ | ODict _ => true | _ => false end.
+Fixpoint generic_pattern_negative (c : cond) (o : obj) : bool :=
+  match c with
+  | CTypeIs t => existsb (fun p => is_generic_pat p && negb (member_b o p)) t && is_collection o
+  | CNot c => generic_pattern_negative c o
+  | CPAnd a b => generic_pattern_negative a o || generic_pattern_negative b o
+  | CAnd a b => generic_pattern_negative a o || generic_pattern_negative b o
+  | COr a b => generic_pattern_negative a o || generic_pattern_negative b o
+  | _ => false
+  end.
 
 (* ---- hypotheses that come from the property's quantifier ---------------- *)
 
@@ -118,7 +131,7 @@ Fixpoint cond_ok (c : cond) (o : obj) : bool :=
   | CIsInstance cs => negb (match cs with [] => true | _ => false end)
   | CIsSubclass cs => negb (match cs with [] => true | _ => false end)
   | CTypeIs t => negb (match t with [] => true | _ => false end)
-                 && forallb (fun p => match p with VTuple _ => false | VAny => false | VGen _ => false | _ => true end) t
+                 && forallb (fun p => match p with VTuple _ => false | VAny => false | VGen GSeqPat => false | VGen GMapPat => false | _ => true end) t
   | CNot c => cond_ok c o
   | CPAnd a b => cond_ok a o && cond_ok b o
   | CAnd a b => cond_ok a o && cond_ok b o
@@ -130,7 +143,8 @@ Fixpoint cond_ok (c : cond) (o : obj) : bool :=
 Definition c02_guard (c : cond) (o : obj) : bool :=
   wf_obj o && cond_ok c o
   && negb (multiple_inheritance o) && negb (subclass_bool o) && negb (promotion_negative c o)
-  && negb (enum_class_object o) && negb (sequence_pattern_str c o) && negb (assert_promotion c o).
+  && negb (enum_class_object o) && negb (sequence_pattern_str c o) && negb (assert_promotion c o)
+  && negb (generic_pattern_negative c o).
 
 (* ---- membership modulo the MinLen/MaxLen annotations (for "never widens") ---- *)
 Definition bmember_s (o : obj) (s : sval) : bool := member_b o (sbase s).
